@@ -38,7 +38,9 @@ SPEC = {
     "tags": {1: "raft-namespace-dropped", 2: "mergo-drops-false-bool"},
     "trusted": ["time.ParseDuration/Duration.String, multiaddr, peer ID, hex and key parsers: abstract (the harness tells the model accept/reject and the canonical form)",
                 "encoding/json, envconfig, mergo (zero values skipped with WithOverride)"],
-    "level_text": "generic theorems over every table and every document; tables regenerated from the config.go files at every run; correspondence per package",
+    "level_text": "generic theorems (Props/C15.v, 34, all closed under the global context) over every table and every document; tables regenerated from the config.go files at every run; correspondence per package; "
+                  "the per-section run-time monitors are tied to the theorems: a case annotated with the model's own outputs raises no code (every section, mode, document, environment), "
+                  "each absent code 10-14 implies its Prop-level clause, and a case without code 1 is an observation of a configuration the model accepts",
     "level_note": "validators transcribed by hand, pinned by source hash and checked at every bound by the harness",
     "assumptions": [],
 }
